@@ -124,6 +124,20 @@ func TestReplay(t *testing.T) {
 				t.Fatalf("VIOLATION-CANDIDATE key=%s: %s", o.key, o.what)
 			}
 		}
+	case "webhook-restart":
+		var r rsReplay
+		if err := json.Unmarshal(doc.Data, &r); err != nil {
+			t.Fatalf("bad replay data: %v", err)
+		}
+		for i := 0; i < 3; i++ {
+			c.Case()
+			o := runRestart(r.Case)
+			applyOutcome(c, o)
+			if o.key != "" {
+				c.Violation(o.key, o.what, rsReplay{Case: r.Case, History: o.history})
+				t.Fatalf("VIOLATION-CANDIDATE key=%s: %s", o.key, o.what)
+			}
+		}
 	case "follower":
 		var r fwReplay
 		if err := json.Unmarshal(doc.Data, &r); err != nil {
